@@ -107,8 +107,10 @@ func runCheck(prop, repo, verif, tier string, workers int, only string, timeout 
 	if only != "" {
 		var f []*ssa.Function
 		for _, h := range hs {
-			if h.Name() == only {
-				f = append(f, h)
+			for _, o := range strings.Split(only, ",") {
+				if h.Name() == o {
+					f = append(f, h)
+				}
 			}
 		}
 		hs = f
